@@ -939,3 +939,46 @@ def ls6(F, R):
             if any(b in c.reach([tgt]) for b in cbs):
                 frag = True
         R.require(not frag, c, key + ":no-fragment-reported", "the callback is reachable for a long-name fragment", c.loc(lc[0]))
+
+
+@rule("LS7", ["C06", "C07"], floor=6,
+      doc="the end-of-directory marker ends lookup and delete exactly as it ends the listing: the per-block helpers find_entry_in_block / delete_entry_in_block answer differently for 'end marker seen' and 'no match in this block', and find_directory_entry / delete_directory_entry go on to the next block only on the latter - so a name behind the end marker (stale bytes of a foreign formatter) is neither found, opened nor deleted, just as it is not listed")
+def ls7(F, R):
+    for helper, walker in (("find_entry_in_block", "find_directory_entry"), ("delete_entry_in_block", "delete_directory_entry")):
+        fn = F.fn(FATVOL + "::" + helper)
+        ends = [(gb, gi) for (gb, gi, g) in all_guards(fn) if g_call("OnDiskDirEntry::is_end", True)(g)]
+        nones = [(gb, gi) for (gb, gi, g) in all_guards(fn) if g.kind == "variant" and g.variant == "None" and has_sub(g.term, lambda q: q[0] == "call" and q[1] and q[1].endswith("Iterator::next"))]
+        R.require(bool(ends) and bool(nones), fn, helper + ":shape", "expected a slot loop with an is_end() test in %s" % helper, fn.loc(0))
+        if not ends or not nones:
+            continue
+
+        def answers(edges):
+            out = set()
+            for (gb, gi) in edges:
+                tgt = fn.succ(gb)[gi][0]
+                rs = fn.reach([tgt])
+                for b, i, s in fn.stmts():
+                    if b in rs and s["k"] == "Assign" and s["p"]["l"] == 0 and not s["p"]["proj"]:
+                        out.add(tstr(fn.term_of_rvalue(s["rv"], b)))
+                for b, t in fn.calls():
+                    if b in rs and t["dest"]["l"] == 0 and not t["dest"]["proj"]:
+                        out.add(tstr(fn.call_term(t, b))[:80])
+            return out
+        a_end = answers(ends)
+        # the loop-exhausted answer: reachable from the iterator's None edge
+        a_none = answers(nones)
+        # the end-marker edge may itself run into the loop exit (`break`): then its answers include the exhausted ones
+        R.require(bool(a_end) and bool(a_none) and not (a_end & a_none), fn, helper + ":distinct-answers", "%s gives the same answer (%s) for 'end-of-directory marker seen' and for 'no match in this block': the caller cannot stop at the end marker and scans the blocks behind it" % (helper, sorted(a_end & a_none)), fn.loc(ends[0][0]))
+        w = F.fn(FATVOL + "::" + walker)
+        calls = [(b, t) for b, t in w.calls() if call_matches(t, ("FatVolume::" + helper,))]
+        R.require(len(calls) == 2, w, walker + ":sites", "expected one %s call per FAT type in %s" % (helper, walker), w.loc(0))
+        for (b, t) in calls:
+            # on the Err edge of the helper result the walk must not go on to another block
+            err_edges = [(gb, gi) for (gb, gi, g) in all_guards(w) if g.kind == "variant" and g.variant == "Err" and g.term[0] == "call" and g.term[3] == b]
+            nxt = [bb for (h, body, backs) in w.loops() if b in body for bb in body if w.term(bb)["k"] == "Call" and (callee_of(w.term(bb)) or "").endswith("Iterator::next")]
+            again = False
+            for (gb, gi) in err_edges:
+                tgt = w.succ(gb)[gi][0]
+                if any(x in w.reach([tgt]) for x in nxt):
+                    again = True
+            R.require(bool(err_edges) and not again, w, walker + ":stops-on-err", "%s goes on to the next directory block after %s reported an error / the end marker" % (walker, helper), w.loc(b))
